@@ -55,7 +55,7 @@ fn held_vec() -> BoxedStrategy<Vec<u128>> {
 }
 
 pub fn strategy() -> BoxedStrategy<Case> {
-    (held_vec(), 0u8..3, 0u8..8, any::<u64>(), 0u128..CAP)
+    (held_vec(), 0u8..3, 0u8..10, any::<u64>(), 0u128..CAP)
         .prop_map(|(held, order, aclass, r, big)| {
             let total: u128 = held.iter().sum();
             let n = held.len().max(1) as u128;
@@ -67,6 +67,9 @@ pub fn strategy() -> BoxedStrategy<Case> {
                 4 => total + 1,
                 5 => total / 2 + (r as u128 % 3),
                 6 => (r as u128) % (total + 2),
+                // leave fewer coins than there are validators / exactly one per validator
+                7 => total.saturating_sub(r as u128 % (n + 1)),
+                8 => total.saturating_sub(n + r as u128 % 3),
                 _ => big,
             };
             Case { held: held.into_iter().map(Uint128::new).collect(), amount: Uint128::new(amount), order }
